@@ -316,7 +316,8 @@ fn c03_run(case: &Case, _ctx: &Ctx, profile: Profile) -> Outcome {
         }
         let safe = |b: &Block| {
             let by_qc = b.qc.round + 1 == b.round;
-            let by_tc = b.tc.as_ref().map_or(false, |tc| tc.round + 1 == b.round && tc.votes.iter().all(|(_, _, hr)| b.qc.round >= *hr));
+            // "carries a timeout certificate": a reference-valid one
+            let by_tc = b.tc.as_ref().map_or(false, |tc| tc.round + 1 == b.round && tc.votes.iter().all(|(_, _, hr)| b.qc.round >= *hr) && refvalid::ref_tc(&run.w, tc).is_ok());
             by_qc || by_tc
         };
         let b = &vars[0];
@@ -334,6 +335,7 @@ fn c03_run(case: &Case, _ctx: &Ctx, profile: Profile) -> Outcome {
     let refusal = run.stats.contains_key("equivocate")
         || run.stats.contains_key("fork-gap-tc-unsafe")
         || run.stats.contains_key("fork-gap-tc-none")
+        || run.stats.contains_key("fork-gap-tc-forged")
         || (!touts.is_empty() && nvotes > 0);
     if run.stats.contains_key("equivocate") {
         out.class("equivocation-offered");
